@@ -47,14 +47,21 @@ def main():
         try:
             dst = os.path.join(tmp, "repo")
             shutil.copytree("/repo", dst, ignore=shutil.ignore_patterns(".git"))
+            stale = False
             for ed in m["edits"]:
                 p = os.path.join(dst, ed["file"])
                 s = open(p).read()
                 cnt = s.count(ed["old"])
                 if cnt != ed.get("count", 1):
-                    raise SystemExit("mutant %s: pattern occurs %d times in %s (want %d)" % (m["name"], cnt, ed["file"], ed.get("count", 1)))
+                    print("STALE     %s: pattern occurs %d times in %s (want %d)" % (m["name"], cnt, ed["file"], ed.get("count", 1)))
+                    stale = True
+                    break
                 s = s.replace(ed["old"], ed["new"])
                 open(p, "w").write(s)
+            if stale:
+                bad += 1
+                failures.append(m["name"] + " (stale)")
+                continue
             rc, out = run(["go", "build", "./..."], cwd=dst)
             if rc != 0:
                 print("MUTANT-DOES-NOT-BUILD", m["name"], out[-400:])
@@ -73,7 +80,8 @@ def main():
                 os.makedirs(evdir, exist_ok=True)
                 shutil.copy(os.path.join(VERIF, "known_findings.json"), evdir)
                 rc, out = run([os.path.join(VERIF, "bin", "fitcheck"), "-prop", pid, "-tier", m.get("tier", "quick"), "-repo", dst, "-verif", evdir], env=env)
-                hit = rc == 1 and "VIOLATION property=%s" % pid in out and (m["expect"] in out)
+                body = "\n".join(l for l in out.splitlines() if " tier=" not in l)
+                hit = rc == 1 and "VIOLATION property=%s" % pid in out and (m["expect"] in body)
                 res.append((pid, hit, out))
             if all(h for _, h, _ in res):
                 ok += 1
